@@ -141,6 +141,16 @@ CHECKS["C13"] = (
     "DESIGN.md section 3, C13",
 )
 
+CHECKS["C12"] = (
+    "explicit-state exploration of file-system states under repeated application of the real command (runs 1..3, closes on a fixpoint)",
+    "Every initial state (truth kind x 8 truth interfaces x each other target in {equivalent, different, missing, empty}, unrelated "
+    "definitions around every target) is driven through `sync` one, two and three times; after run 1 every file must be valid Python, "
+    "every named target must parse to the truth's interface, the truth and all code outside the targets must be unchanged (ASTs); runs 2 "
+    "and 3 must leave every file byte-identical.",
+    "all three kinds always listed; outside-target comparison on ASTs (the command re-renders files); C02 normalisations for equivalence",
+    "DESIGN.md section 3, C12",
+)
+
 PENDING_REASON = "check not built yet in this revision (planned, see DESIGN.md section 3); no claim is made"
 
 
